@@ -754,7 +754,7 @@ func c14LockInventory(c *Ctx) {
 					continue
 				}
 				n++
-				id := lockID{pk.Types.Name(), typeCanonName(tn), st.Field(i).Name()}.String()
+				id := lockID{pk.Types.Name(), typeCanonName(tn), canonicalField(pk.Types.Name() + "." + typeCanonName(tn) + "." + st.Field(i).Name())}.String()
 				if s == "sync.RWMutex" {
 					c.Fail(id, "", "a reader/writer mutex guards this state: the lock-set rules assume exclusive locks (a read lock does not protect the state transitions done by permit requests)", "")
 					continue
